@@ -135,6 +135,21 @@ func c14Triples(r *rand.Rand, n int) []c14Obs {
 				}
 			}
 		}
+		// the newest trusted header is AHEAD of the host chain's block time (a promptly relayed header,
+		// a host clock lagging by seconds): well inside the trusting period, must be Active
+		for _, lag := range []int64{1, 2, 4, 60, 3600} {
+			for _, p := range periods[ty][1:] {
+				for _, nn := range []int64{0, 400000000, 999999999} {
+					o := c14Obs{Ty: ty, HasTS: true, Period: p, S: base - lag, NS: nn}
+					if ty == 7 {
+						o.TS = uint64(base * 1000000000)
+					} else {
+						o.TS = uint64(base)
+					}
+					out = append(out, o)
+				}
+			}
+		}
 		out = append(out, c14Obs{Ty: ty, HasTS: false, Period: 100, S: base, NS: 5})
 		// the pre-repair witnesses: 10 000 s old client with a 3 600 s period; ts=100, period=0
 		out = append(out, c14Obs{Ty: ty, HasTS: true, TS: map[int]uint64{7: uint64(base-10000) * 1000000000, 8: uint64(base - 10000), 9: uint64(base - 10000)}[ty],
